@@ -15,7 +15,11 @@ MUTANTS = [
                     continue
                 seen.add(ss)
 
-                freq[pos][ss.id] += weight
+                # synsets inferred through an expand lexicon are not
+                # part of the wordnet: they have no weight of their own,
+                # but the walk continues through them
+                if ss.id in freq[pos]:
+                    freq[pos][ss.id] += weight
 
                 if ss not in hypernym_cache:
                     hypernym_cache[ss] = ss.hypernyms()
@@ -37,12 +41,21 @@ MUTANTS = [
                     continue
                 seen.add(ss)
 
-                freq[pos][ss.id] += weight
+                # synsets inferred through an expand lexicon are not
+                # part of the wordnet: they have no weight of their own,
+                # but the walk continues through them
+                if ss.id in freq[pos]:
+                    freq[pos][ss.id] += weight
 """, """                freq[pos][ss.id] += weight
                 if ss in seen:
                     continue
                 seen.add(ss)
 """)]},
+    {'name': 'placeholder-indexed', 'expect': 'C15-R9',
+     'edits': [E(I, "                if ss.id in freq[pos]:\n                    freq[pos][ss.id] += weight\n", "                freq[pos][ss.id] += weight\n")]},
+    {'name': 'benign-entry-test-through-a-local', 'expect': 'silent',
+     'edits': [E(I, "                if ss.id in freq[pos]:\n                    freq[pos][ss.id] += weight\n",
+                 "                pos_freq = freq[pos]\n                if ss.id in pos_freq:\n                    pos_freq[ss.id] += weight\n")]},
     {'name': 'seen-shared-across-synsets', 'expect': 'C15-R1',
      'edits': [E(I, """        for synset in synsets:
             pos = synset.pos""", """        seen: set[Synset] = set()
